@@ -56,20 +56,12 @@ impl State {
         }
 
         res.append(&mut self.newlines);
-        res.push(Lex::new(self.pos, token.clone()));
+        let lex = Lex::new(self.pos, token);
 
-        // TODO streamline application logic for multiline strings
         self.cur_indent = self.line_indent;
-        self.pos = self.pos.offset_pos(token.clone().width());
-        if let Token::Str(_str, _) = &token {
-            self.pos = self
-                .pos
-                .offset_line((_str.lines().count() as i32 - 1) as usize);
-        } else if let Token::DocStr(_str) = &token {
-            self.pos = self
-                .pos
-                .offset_line((_str.lines().count() as i32 - 1) as usize);
-        }
+        // The caret continues where the token ends, also for multiline strings.
+        self.pos = lex.pos.end;
+        res.push(lex);
 
         res
     }
